@@ -177,23 +177,28 @@ def one_call(prog, Model, n, t, o, rng, rep, lines, expect, txt):
     expect.append((info, impl_feasible, dr, sorted((names.index(k), i) for (k, i) in allowed), sorted((names.index(k), i) for (k, i) in changed), kind))
 
 
-def solve_call(prog, Model, n, rng, rep, txt):
-    """solve(start, end): only the visited periods' cells change."""
+def solve_call(prog, Model, n, rng, rep, txt, fixed=None):
+    """solve(start, end): only the visited periods' cells change.  `fixed` = a stored case to re-run exactly."""
     exp = g.expected_classes(prog)
     eqs = [st for st in prog.statements if isinstance(st, g.Equation)]
-    origin = rng.choice([100, 0, 0, -2, 1])     # labels 0 / negative / falsy labels are labels like any other
+    if fixed is None:
+        origin = rng.choice([100, 0, 0, -2, 1])     # labels 0 / negative / falsy labels are labels like any other
+        labels = list(range(origin, origin + n))
+        fixed = {'origin': origin, 'start': rng.choice([None] + labels), 'end': rng.choice([None] + labels),
+                 'offset': rng.choice([0, 0, -1]), 'max_iter': rng.choice([1, 5, 50]),
+                 'errors': rng.choice(['raise', 'ignore', 'skip'])}
+    origin, start, end, off = fixed['origin'], fixed['start'], fixed['end'], fixed['offset']
+    labels = list(range(origin, origin + n))
+    drng = random.Random(f'{txt}|{n}|{json.dumps(fixed, sort_keys=True)}')   # data depend on the case only: replayable
     m = Model(range(origin, origin + n))
-    for k, v in g.random_data(rng, prog, n).items():
+    for k, v in g.random_data(drng, prog, n).items():
         m[k] = v
     before = snapshot(m)
-    labels = list(range(origin, origin + n))
-    start = rng.choice([None] + labels)
-    end = rng.choice([None] + labels)
-    off = rng.choice([0, 0, -1])
     with warnings.catch_warnings():
         warnings.simplefilter('ignore')
         try:
-            m.solve(start=start, end=end, max_iter=rng.choice([1, 5, 50]), failures='ignore', errors=rng.choice(['raise', 'ignore', 'skip']), offset=off)
+            m.solve(start=start, end=end, max_iter=fixed.get('max_iter', 5), failures='ignore',
+                    errors=fixed.get('errors', 'raise'), offset=off)
             tag = 'ok'
         except Exception as e:  # noqa: BLE001
             tag = sc.exc_name(e)
@@ -206,11 +211,11 @@ def solve_call(prog, Model, n, rng, rep, txt):
         allowed |= {(en, p) for en in exp['endogenous'] for p in visited}
     changed = {(k, i) for k in before[0] for i in range(n) if before[0][k][i] != after[0][k][i]}
     st_changed = [i for i in range(n) if before[1][i] != after[1][i] or before[2][i] != after[2][i]]
-    info = {'script': txt, 'n': n, 'start': start, 'end': end, 'offset': off, 'origin': origin}
+    info = dict(fixed, script=txt, n=n, ast=repr(prog), solve=True)
     if changed - allowed or any(i not in visited for i in st_changed):
         rep.violate('solve-wrote-outside-range', f'solve({start},{end}) -> {tag}: changed {sorted(changed - allowed)} / status at {st_changed}, '
                     f'visited {list(visited)}', info)
-    rep.case(json.dumps([txt, n, start, end, off]), nontrivial=len(visited) > 1)
+    rep.case(json.dumps([txt, n, fixed], sort_keys=True), nontrivial=len(visited) > 1)
     rep.dist['solve:' + tag.split(':')[0]] += 1
 
 
@@ -258,11 +263,15 @@ def run(ctx, rep):
 
 def replay(ctx, rep, info):
     print('  script:', repr(info['script']), {k: v for k, v in info.items() if k not in ('script', 'ast')})
-    if 't' not in info:
-        print('  (solve() range case: re-run the check to reproduce)')
-        rep.violate('replayed', 'solve() case', info)
+    if 'ast' not in info:
+        print('  (case stored without its AST: re-run the check to reproduce)')
         return
     ns = {k: getattr(g, k) for k in dir(g)}
     prog = eval(info['ast'], ns)
     Model, txt = model_for(prog)
+    if info.get('solve') or 't' not in info:
+        fixed = {k: info[k] for k in ('origin', 'start', 'end', 'offset', 'max_iter', 'errors') if k in info}
+        fixed.setdefault('origin', 100)
+        solve_call(prog, Model, info['n'], None, rep, txt, fixed=fixed)
+        return
     one_call(prog, Model, info['n'], info['t'], info['opts'], None, rep, [], [], txt)
